@@ -18,8 +18,12 @@ CLAIMS = {
             'Decides, for every opcode, that interpreter, constant folder and x86 patterns use the operator, width and signedness that '
             'MIR.md\'s naming convention prescribes, and that every emitted interpreter code has a handler. Boundary-value arithmetic '
             'inside one signature is not decided.', '3 C02'),
-    'C03': ('template discipline of the fixed glue code, code-write protocol, label-operand position agreement',
-            'Decides structural necessary conditions only (see DESIGN).', '3 C03'),
+    'C03': ('machine-code template discipline of the wrapper / basic-block wrapper / thunks (RF11), thunk redirection through the '
+            'code-write protocol (RF4d), label-operand position agreement between duplicator, simplifier and interpreter (RF7g)',
+            'Decides narrow structural necessary conditions of interface independence: the glue that switches a function from stub to '
+            'generated code preserves every argument register and the stack, both thunk patterns have one size so retargeting never '
+            'overwrites a neighbour, redirection writes go through the protected code-write path, and label targets are rewired at the '
+            'same operand positions in every engine. Behavioural equivalence across interfaces and call orders is not decided.', '3 C03'),
     'C04': ('RF18 flag-producer preservation, RF7e extension-map agreement, RF7g label-operand positions, RF7b call-family coverage',
             'Decides that the link-time shortcut set is disjoint from overflow-flag producers, that result/argument extension maps agree '
             'with the target\'s, and that label bookkeeping covers every label-carrying opcode. Inlining/renaming logic is not decided.',
@@ -69,7 +73,6 @@ CLAIMS = {
 NA = {
     'C01': 'not yet implemented in this framework revision (planned: narrow structural clauses only; equivalence over all programs is out of reach of static analysis)',
     'C02': 'not yet implemented in this framework revision (planned: opcode signature agreement)',
-    'C03': 'behaviour across execution interfaces and call orders quantifies over program histories; the structural part (glue templates) is contingent on an exact template decoder, not built',
     'C04': 'not yet implemented in this framework revision (planned: RF18/RF7e/RF7g clauses)',
     'C05': 'not yet implemented in this framework revision (planned: ABI constant agreement)',
     'C06': 'not yet implemented in this framework revision (planned: ABI constant agreement, callee side)',
